@@ -183,11 +183,171 @@ class Extract3(Extract):
     SKIP = 2
 
 
+class _BodyRewriter(ast.NodeTransformer):
+    """Base for rewrites that replace one statement by several inside any statement list."""
+    def rewrite(self, st, last, owner):
+        return None
+
+    def _list(self, stmts, owner):
+        out = []
+        for i, st in enumerate(stmts):
+            r = self.rewrite(st, i == len(stmts) - 1, owner)
+            out.extend(r if r is not None else [st])
+        return out
+
+    def generic_visit(self, node):
+        super().generic_visit(node)
+        for fld in ("body", "orelse", "finalbody"):
+            v = getattr(node, fld, None)
+            if isinstance(v, list) and v and isinstance(v[0], ast.stmt):
+                setattr(node, fld, self._list(v, (node, fld)))
+        return node
+
+
+def _negate(t):
+    if isinstance(t, ast.UnaryOp) and isinstance(t.op, ast.Not):
+        return t.operand
+    return ast.UnaryOp(op=ast.Not(), operand=t)
+
+
+class EarlyReturn(_BodyRewriter):
+    """Guard-clause refactoring: a trailing `if c: body` of a function becomes
+    `if not c: return` followed by body."""
+    def rewrite(self, st, last, owner):
+        node, fld = owner
+        if last and fld == "body" and isinstance(node, ast.FunctionDef) and isinstance(st, ast.If) \
+                and not st.orelse and not any(isinstance(x, (ast.Yield, ast.YieldFrom)) for x in ast.walk(node)):
+            g = ast.copy_location(ast.If(test=_negate(st.test), body=[ast.Return(value=None)], orelse=[]), st)
+            return [g] + st.body
+        return None
+
+
+class EarlyContinue(_BodyRewriter):
+    """A trailing `if c: body` of a for/while body becomes `if not c: continue` + body."""
+    def rewrite(self, st, last, owner):
+        node, fld = owner
+        if last and fld == "body" and isinstance(node, (ast.For, ast.While)) and isinstance(st, ast.If) \
+                and not st.orelse:
+            g = ast.copy_location(ast.If(test=_negate(st.test), body=[ast.Continue()], orelse=[]), st)
+            return [g] + st.body
+        return None
+
+
+class DeMorgan(ast.NodeTransformer):
+    """not (a or b) -> not a and not b ;  not (a and b) -> not a or not b."""
+    def visit_UnaryOp(self, node):
+        self.generic_visit(node)
+        if isinstance(node.op, ast.Not) and isinstance(node.operand, ast.BoolOp):
+            b = node.operand
+            op = ast.And() if isinstance(b.op, ast.Or) else ast.Or()
+            return ast.copy_location(ast.BoolOp(op=op, values=[_negate(v) for v in b.values]), node)
+        return node
+
+
+class AugAssign(ast.NodeTransformer):
+    """x += e  ->  x = x + e  for plain names and self.<attr> targets."""
+    def visit_AugAssign(self, node):
+        t = node.target
+        if isinstance(t, ast.Name) or (isinstance(t, ast.Attribute) and isinstance(t.value, ast.Name)):
+            import copy
+            load = copy.deepcopy(t)
+            load.ctx = ast.Load()
+            return ast.copy_location(ast.Assign(
+                targets=[t], value=ast.BinOp(left=load, op=node.op, right=node.value)), node)
+        return node
+
+
+def _pure_chain(e):
+    while isinstance(e, ast.Attribute):
+        e = e.value
+    return isinstance(e, ast.Name)
+
+
+class TmpVar(_BodyRewriter):
+    """Introduce-variable refactoring: the first attribute-chain argument of a call statement
+    is hoisted into a fresh local assigned immediately before the statement."""
+    N = 0
+
+    def rewrite(self, st, last, owner):
+        call = None
+        if isinstance(st, ast.Expr) and isinstance(st.value, ast.Call):
+            call = st.value
+        elif isinstance(st, ast.Assign) and isinstance(st.value, ast.Call):
+            call = st.value
+        elif isinstance(st, ast.Return) and isinstance(st.value, ast.Call):
+            call = st.value
+        if call is None or not isinstance(call.func, (ast.Attribute, ast.Name)):
+            return None
+        if isinstance(call.func, ast.Attribute) and not _pure_chain(call.func):
+            return None
+        for i, a in enumerate(call.args):
+            if isinstance(a, ast.Starred):
+                return None
+            if isinstance(a, ast.Attribute) and _pure_chain(a):
+                TmpVar.N += 1
+                nm = f"_tv{TmpVar.N}"
+                call.args[i] = ast.Name(id=nm, ctx=ast.Load())
+                return [ast.copy_location(ast.Assign(targets=[ast.Name(id=nm, ctx=ast.Store())], value=a), st), st]
+            if not isinstance(a, (ast.Constant, ast.Name)):
+                return None       # keep the evaluation order of impure earlier arguments
+        return None
+
+    def generic_visit(self, node):
+        if isinstance(node, ast.ClassDef):
+            # class bodies: only descend into methods
+            for b in node.body:
+                if isinstance(b, ast.FunctionDef):
+                    self.visit(b)
+            return node
+        if isinstance(node, ast.Module):
+            for b in node.body:
+                if isinstance(b, (ast.FunctionDef, ast.ClassDef)):
+                    self.visit(b)
+            return node
+        return super().generic_visit(node)
+
+
+class KwArgs(ast.NodeTransformer):
+    """self.m(a, b) -> self.m(x=a, y=b) where every definition of m in the tree agrees on the
+    names of its positional parameters (collected by the pre-pass)."""
+    SIGS: dict = {}
+
+    @classmethod
+    def prepass(cls, root):
+        sigs: dict = {}
+        for dp, dn, fn in os.walk(root):
+            for f in fn:
+                if f.endswith(".py"):
+                    for n in ast.walk(ast.parse(open(os.path.join(dp, f)).read())):
+                        if isinstance(n, ast.FunctionDef) and n.args.args and n.args.args[0].arg == "self" \
+                                and not n.args.posonlyargs and not n.decorator_list:
+                            names = tuple(a.arg for a in n.args.args[1:])
+                            sigs.setdefault(n.name, set()).add((names, n.args.vararg is not None))
+        cls.SIGS = {k: next(iter(v))[0] for k, v in sigs.items() if len(v) == 1 and not next(iter(v))[1]}
+
+    def visit_Call(self, node):
+        self.generic_visit(node)
+        f = node.func
+        if isinstance(f, ast.Attribute) and isinstance(f.value, ast.Name) and f.value.id == "self" \
+                and f.attr in self.SIGS and not f.attr.startswith("__") and node.args \
+                and not any(isinstance(a, ast.Starred) for a in node.args):
+            names = self.SIGS[f.attr]
+            if len(node.args) <= len(names) and not ({k.arg for k in node.keywords} & set(names[:len(node.args)])):
+                node.keywords = [ast.keyword(arg=names[i], value=a) for i, a in enumerate(node.args)] + node.keywords
+                node.args = []
+        return node
+
+
 KINDS = {"unparse": None, "extract": Extract, "extract2": Extract2, "extract3": Extract3, "rename": Renamer, "nestif": NestIf, "passes": Passes,
-         "flipcmp": FlipCmp, "invertif": InvertIf, "inchain": InChain, "deltopop": DelToPop}
+         "flipcmp": FlipCmp, "invertif": InvertIf, "inchain": InChain, "deltopop": DelToPop,
+         "earlyret": EarlyReturn, "earlycont": EarlyContinue, "demorgan": DeMorgan, "augassign": AugAssign,
+         "tmpvar": TmpVar, "kwargs": KwArgs}
 
 
 def transform(root, kind):
+    t0 = KINDS[kind]
+    if t0 is not None and hasattr(t0, "prepass"):
+        t0.prepass(root)
     for dp, dn, fn in os.walk(root):
         for f in fn:
             if not f.endswith(".py"):
